@@ -434,10 +434,12 @@ func ruleReadDBIFlags(c *Check, rule, ruleTransform string) {
 	for i := range paths {
 		p := &paths[i]
 		oc := callsOf(p, "(*lmdb.Txn).OpenCursor")
-		if len(oc) == 0 {
+		if len(oc) == 0 && !retIsNilErr(p) {
 			// before the cursor: dupsort without the hack must be an error
 			continue
 		}
+		// every path that reaches the cursor and every path that hands a message back
+		// without an error (a short-cut for an empty DBI, say) records name, flags, transform
 		n++
 		sf := callsOf(p, "snapshot.(*DBI).SetFlags")
 		sn := callsOf(p, "snapshot.(*DBI).SetName")
@@ -497,4 +499,78 @@ func ruleReadDBIFlags(c *Check, rule, ruleTransform string) {
 	}
 	c.Floor(rule, n, 2, "paths of readDBI reaching the cursor")
 	c.Floor(ruleTransform, nDS, 1, "dupsort paths of readDBI")
+}
+
+// HOOKS-ONLY-FROM-EMBEDDER (C06-R9, C04-R10): the hook functions (hooks.Hooks)
+// can filter what readDBI reads, veto updates and inject snapshots. They belong
+// to the embedding program: lightningstream itself never installs one. A
+// hook installed by the repository's own code ("do not ship expired markers",
+// "skip unchanged entries") silently changes what every snapshot contains and
+// which deletions travel. Every store into a field of hooks.Hooks anywhere in
+// the repository's non-test code is a violation (the zero value excepted); the
+// Syncer's hooks field is written by the constructor only.
+func ruleHooksFromEmbedder(c *Check, rule string) {
+	var hooksT *types.Named
+	for _, fn := range c.P.RepoFuncs() {
+		if fn.Pkg != nil && strings.HasSuffix(fn.Pkg.Pkg.Path(), "/syncer/hooks") {
+			if o, ok := fn.Pkg.Pkg.Scope().Lookup("Hooks").(*types.TypeName); ok {
+				hooksT, _ = o.Type().(*types.Named)
+			}
+		}
+	}
+	if hooksT == nil {
+		c.Undecided(rule, "syncer/hooks.Hooks", "the hooks type was not found", "")
+		return
+	}
+	stT, ok := hooksT.Underlying().(*types.Struct)
+	if !ok {
+		c.Undecided(rule, "syncer/hooks.Hooks", "hooks.Hooks is not a struct", "")
+		return
+	}
+	nFields, nReads, bad := stT.NumFields(), 0, 0
+	for i := 0; i < stT.NumFields(); i++ {
+		f := stT.Field(i).Name()
+		for fnName, ins := range fieldWriters(c.P, "Hooks", f) {
+			for _, in := range ins {
+				if st, ok := in.(*ssa.Store); ok {
+					if k, isC := st.Val.(*ssa.Const); isC && k.Value == nil {
+						continue // reset to nil
+					}
+				}
+				bad++
+				c.Bad(rule, fnName+"/hook-installed:"+f, "the repository's own code installs the hook "+f+": hooks belong to the embedding program; a built-in "+f+" changes what every snapshot contains or which updates are applied without the operator having configured anything", c.P.InstrPos(in), nil)
+			}
+		}
+	}
+	// reads, for the evidence: where the hooks take effect
+	for _, fn := range c.P.RepoFuncs() {
+		for _, b := range fn.Blocks {
+			for _, in := range b.Instrs {
+				if fa, ok := in.(*ssa.FieldAddr); ok {
+					t := fa.X.Type()
+					if pt, ok := t.Underlying().(*types.Pointer); ok {
+						t = pt.Elem()
+					}
+					if n, ok := t.(*types.Named); ok && n.Obj() == hooksT.Obj() {
+						nReads++
+					}
+				}
+			}
+		}
+	}
+	// Syncer.hooks: assigned by the constructor only
+	for fnName, ins := range fieldWriters(c.P, "Syncer", "hooks") {
+		if fnName == "syncer.New" {
+			continue
+		}
+		for _, in := range ins {
+			bad++
+			c.Bad(rule, fnName+"/hooks-replaced", "the Syncer's hooks are replaced outside the constructor", c.P.InstrPos(in), nil)
+		}
+	}
+	if bad == 0 {
+		c.Ok(rule, "syncer/hooks.Hooks/only-from-embedder", fmt.Sprintf("%d hook fields, %d uses in the repository: no non-test code stores a function into any of them; Syncer.hooks is set by syncer.New only", nFields, nReads), "")
+	}
+	c.Floor(rule, nFields, 8, "fields of hooks.Hooks")
+	c.Floor(rule, nReads, 8, "uses of hook fields")
 }
